@@ -39,6 +39,14 @@ def cases(run: Run):
         c["hour"] = (night + rng.choice([0, 0, 1, -2, 3])) % 24 if rng.random() < 0.8 else rng.choice([0, 4, 8, 12, 16, 20])
         if host == "space":
             c["el"] = rng.choice([c["el"], -c["el"] / 2, rng.uniform(-60, 60)])
+            if rng.random() < 0.3:
+                # a target behind the Earth's limb but on the sensor's side of the Earth: below the limb depression, beyond the tangent point
+                rh = 7000.0 + 300 * (c["seed"] % 5)
+                limb = math.degrees(math.acos(6378.1363 / rh))
+                tangent = math.sqrt(rh * rh - 6378.1363**2)
+                c["el"] = -(limb + rng.uniform(1.0, 12.0))
+                c["rho"] = tangent * rng.uniform(1.15, 2.2)
+                c["off"] = 0.0
         for _k in range(rng.choice([0, 0, 1, 1, 2])):
             what = rng.choice(["mask", "elmask", "minr", "maxr", "slew", "slew-near", "xs", "off", "low", "far", "near"])
             if what == "mask":
